@@ -107,7 +107,7 @@ func init() {
 		PropCheck: "prop_bad_ids",
 		Gen:       c19Gen,
 		Run:       c19Run,
-		Rule:      "mixes of the listed operations (KMAC ComputeHash, BLS Sign/Verify, PoP generation and verification through the package-level PoP hasher, SPoCK, aggregate and batch verification, ECDSA Sign/Verify) over shared keys, messages (random, and the shapes empty / 1 byte / one cSHAKE block / 5000 bytes), valid/foreign/malformed signatures and one shared KMAC128 hasher; snapshot of every shared object before/after each operation run alone, then 2-8 (some cases 16 and 33) goroutines x repetitions compared with the sequential results; the list arguments (keys, messages, hashers, signatures) are checked element by element after every call, signatures / digests handed out are kept un-copied and re-read at the end; stress: distinct short inputs on one shared hasher, aggregate verification with repeated keys and hashers that differ per index, FIRST USE by 8 goroutines at once of key objects fresh from every constructor (decoded, aggregated, removed-from, derived, identity; BLS public and private, ECDSA public and private on both curves) by PoP / Encode / Verify / Sign / SPoCK / aggregate / batch verification and of a new KMAC128 hasher; cold: the same in a child process with nothing warmed up, incl. the package-level PoP hasher; the whole workload is repeated under the race detector; non-trivial if at least one operation returned a signature or true; distinct by (seed, op list, goroutines); signature aggregation from every goroutine at once after failed aggregations (invalid point, wrong length, empty list)",
+		Rule:      "mixes of the listed operations (KMAC ComputeHash, BLS Sign/Verify, PoP generation and verification through the package-level PoP hasher, SPoCK, aggregate and batch verification, ECDSA Sign/Verify) over shared keys, messages (random, and the shapes empty / 1 byte / one cSHAKE block / 5000 bytes), valid/foreign/malformed signatures and one shared KMAC128 hasher; snapshot of every shared object before/after each operation run alone, then 2-8 (some cases 16 and 33) goroutines x repetitions compared with the sequential results; the list arguments (keys, messages, hashers, signatures) are checked element by element after every call, signatures / digests handed out are kept un-copied and re-read at the end; stress: distinct short inputs on one shared hasher, aggregate verification with repeated keys and hashers that differ per index, FIRST USE by 8 goroutines at once of key objects fresh from every constructor (decoded, aggregated, removed-from, derived, identity; BLS public and private, ECDSA public and private on both curves) by PoP / Encode / Verify / Sign / SPoCK / aggregate / batch verification and of a new KMAC128 hasher; cold: the same in a child process with nothing warmed up, incl. the package-level PoP hasher; the whole workload is repeated under the race detector; non-trivial if at least one operation returned a signature or true; distinct by (seed, op list, goroutines); signature aggregation from every goroutine at once after failed aggregations (invalid point, wrong length, empty list); invalid signatures of five kinds (x >= p, x = p, outside G1, no curve point); per-goroutine KMAC128 hashers of 32 / 48 / 64 / 200 bytes (digests and ECDSA verification through them) next to the shared 128-byte ones",
 		Shard:     60,
 	})
 }
